@@ -411,7 +411,17 @@ func c13(c *Ctx) {
 			disagreements++
 			continue
 		case 1:
-			r.Hold("R13.I", "registered:"+key, c.pos(ms[0].Pos), ms[0].Name)
+			// the id belongs to the Go name a caller writes: the type / enum constant that carries the id is the one
+			// named after the definition (two members of an enum that trade ids keep the registry intact and send
+			// each other's constructor)
+			want := foldName(strings.ReplaceAll(d.Name, ".", ""))
+			got := foldName(ms[0].Name)
+			if got == want || got == want+"obj" || got == want+"params" {
+				r.Hold("R13.I", "registered:"+key, c.pos(ms[0].Pos), ms[0].Name)
+			} else {
+				r.Violate("R13.I", "registered:"+key, c.pos(ms[0].Pos), sprintf("id %08x (%s) is carried by the Go name %s: the name a caller writes selects another constructor than the schema gives that name", d.ID, d.Name, ms[0].Name))
+				disagreements++
+			}
 		default:
 			var names []string
 			for _, m := range ms {
